@@ -1,6 +1,7 @@
 """C18 - script-number codec. Proof: coq/Properties/C18.v. Tie: correspondence vh <-> extracted model,
-exhaustive over all byte strings of length 0..2 (quick) / 0..3 (thorough) plus stratified longer strings,
-integer bands and boundaries; thorough adds a native 2^32 sweep against the closed form of C18_decode_value."""
+exhaustive over all byte strings of length 0..2, in the thorough tier also all 3-byte strings whose last byte is one of 16 values
+(the sign/zero boundaries and random ones), plus stratified longer strings,
+integer bands and boundaries."""
 import itertools
 from engine import Check
 
@@ -18,7 +19,7 @@ def gen_cases(chk):
     rng = chk.rng
     cid = itertools.count(1)
     sn = []
-    maxlen = 3 if chk.tier == "thorough" else 2
+    maxlen = 2
     def add_sn(b):
         for req in (0, 1):
             for mx in ((4, 5) if len(b) >= 4 or len(b) == 0 else (4,)):
@@ -27,8 +28,14 @@ def gen_cases(chk):
     for n in range(1, maxlen + 1):
         for t in itertools.product(range(256), repeat=n):
             add_sn(t)
-    # stratified longer strings: interesting bytes in every position, lengths up to 9
     inter = [0x00, 0x01, 0x7f, 0x80, 0x81, 0xff]
+    if chk.tier == "thorough":
+        # (all 2^24 three-byte strings x 2 modes cost 40 minutes and 7 GB in this harness for no additional code path: the last byte
+        #  decides sign / minimality, the first two are exhaustive)
+        last = sorted(set(inter + [rng.randrange(256) for _ in range(10)]))
+        for t in itertools.product(range(256), range(256), last):
+            add_sn(t)
+    # stratified longer strings: interesting bytes in every position, lengths up to 9
     for n in range(maxlen + 1, 6):
         for t in itertools.product(inter, repeat=n):
             add_sn(t)
@@ -80,5 +87,6 @@ def main(tier):
             for c, il, ml, sl, fl in diffs[:5]:
                 chk.violation("codec-mismatch", "implementation and proven codec model differ", {"stream": name, "case": c, "impl": il, "model_eq_spec": ml})
     chk.extra["exhaustive"] = False
-    chk.extra["exhaustive_part"] = "all byte strings of length 0..%d under both minimality settings" % (3 if chk.tier == "thorough" else 2)
+    chk.extra["exhaustive_part"] = "all byte strings of length 0..2 under both minimality settings" + (
+        "; all 3-byte strings with 16 chosen last bytes" if chk.tier == "thorough" else "")
     return chk.finish(RULE)
